@@ -127,6 +127,38 @@ def eval_groups(cases, tag):
     return ids, re.sub(r'\s+', ' ', out.split('bad =')[1])[:1500] if 'bad =' in out else ''
 
 
+def group_ids_family(ld, r, count):
+    """groupby with arbitrary hashable group ids - None, 0, '', (), strings, tuples, also for the very first example: every example
+    lands in exactly the group of its id, groups keep the dataset order"""
+    fails = []
+    IDS = [None, None, 0, '', (), 'spk', 1, (1, 2), -1, 'None']
+    for _ in range(count):
+        n = r.randint(0, 8)
+        ids = [r.choice(IDS) for _ in range(n)]
+        if n and r.random() < 0.4:
+            ids[0] = None                         # unannotated examples first
+        keyed = r.random() < 0.5
+        base = ld.new({f'key{i}': i for i in range(n)} if keyed else list(range(n)))
+        stack = r.choice(['plain', 'map', 'slice'])
+        d = base if stack == 'plain' else base.map(_same18) if stack == 'map' else base[::1]
+        want = {}
+        for i, g in enumerate(ids):
+            want.setdefault(g, []).append(i)
+        try:
+            groups = d.groupby(lambda x, ids=ids: ids[x])
+            got = {k: list(v) for k, v in groups.items()}
+        except Exception as e:
+            fails.append(f'groupby over {n} examples with group ids {ids!r} raised {type(e).__name__}: {e}'[:300])
+            continue
+        if got != want:
+            fails.append(f'groupby over {n} examples ({"dict" if keyed else "list"} source, {stack}) with group ids {ids!r}: groups {got!r}, expected {want!r}'[:600])
+    return fails
+
+
+def _same18(x):
+    return x
+
+
 def custom_sort_fn(ld, r, count):
     """a custom sort_fn returning a sorted permutation must give the same result as the default"""
     fails = []
@@ -187,6 +219,9 @@ def run(tier):
             break
     for msg in custom_sort_fn(ld, r, 400 if big else 60):
         res['failures'].append(dict(kind='program', summary=msg[:400]))
+    for msg in group_ids_family(ld, common.rng_for('C18-gids'), 3000 if big else 300):
+        res['failures'].append(dict(kind='program', summary=msg[:600]))
+    res['coverage']['groupby_arbitrary_id_cases'] = 3000 if big else 300
     res['coverage'].update(groupby_cases=len(gc), groupby_disagreements=len(bad),
                            groupby_refused=sum(1 for c in gc if c[2] is None))
     res['coverage']['evaluations'] = res['coverage']['programs'] + len(gc)
